@@ -131,6 +131,11 @@ def with_defines(rng, lines):
     lines[i] = Line(ind + body.rsplit(" ", 1)[0] + " $" + name, **lines[i].info)
     pos = rng.randint(0, i)
     lines.insert(pos, Line("%define " + name + " v1", role="define", cont=c08.container_at(lines, pos)))
+    if rng.random() < 0.4:
+        # a second definition of the name: the same value (allowed) or another one (refused) - in either letter case
+        p2 = rng.randint(pos + 1, len(lines))
+        lines.insert(p2, Line("%define " + name + " " + rng.choice(["v1", "v9"]), role="define",
+                              cont=c08.container_at(lines, p2)))
     return lines
 
 
